@@ -26,6 +26,8 @@ RNG_DRAWS = {'permutation', 'rand', 'randn', 'random', 'random_sample', 'choice'
 RNG_EXCEPTIONS = {('xrspatial.bump', 'bump'): 'bump() draws bump locations from the global RNG by documented design'}
 MEMO_DECORATORS = {'functools.lru_cache', 'functools.cache', 'functools.cached_property', 'cachetools.cached',
                    'toolz.memoize', 'toolz.functoolz.memoize', 'dask.base.memoize'}
+IMMUTABLE_CTORS = {'tuple', 'frozenset', 'int', 'float', 'str', 'bool', 'bytes', 'complex', 'float32', 'float64',
+                   'int32', 'int64', 'uint8', 'uint32', 'dtype', 'range', 'slice', 'partial', 'compile', 'Path', 'getenv'}
 MUTABLE_CTORS = {'dict', 'list', 'set', 'defaultdict', 'OrderedDict', 'Counter', 'deque', 'bytearray'}
 
 
@@ -104,8 +106,18 @@ def check_S2(prog, rep, eff):
         if not in_scope(f) or f.is_lambda:
             continue
         for p, d in f.defaults().items():
-            mutable = isinstance(d, (ast.List, ast.Dict, ast.Set)) or \
-                (isinstance(d, ast.Call) and short(d) in MUTABLE_CTORS | {'array'})
+            rng_default = isinstance(d, ast.Call) and short(d) in ('RandomState', 'default_rng', 'Generator', 'Random',
+                                                                   'SeedSequence', 'PCG64', 'MT19937')
+            mutable = isinstance(d, (ast.List, ast.Dict, ast.Set, ast.ListComp, ast.DictComp, ast.SetComp)) or \
+                (isinstance(d, ast.Call) and short(d) not in IMMUTABLE_CTORS)
+            if rng_default:
+                used = [n for n in f.own_nodes() if isinstance(n, ast.Call) and isinstance(n.func, ast.Attribute) and
+                        isinstance(n.func.value, ast.Name) and n.func.value.id == p]
+                rep.add('S2', f, f.qualname, 'stateful default %s=%s' % (p, norm(d)), f.node.lineno, not used,
+                        'a random generator created once as a default argument is shared by all calls and its state '
+                        'advances with every draw (%s): later calls differ from the first'
+                        % ', '.join(sorted({norm(u.func) for u in used}))[:120])
+                continue
             if not mutable:
                 continue
             s = eff.summary(f)
